@@ -40,6 +40,10 @@ type lroutine struct {
 	eitherFault func(f *fault, a *lapackgen.Args) bool
 	// adjust is called on every freshly built tuple (doc-derived minima).
 	adjust func(a *lapackgen.Args)
+	// elemFaults lists integer-vector arguments whose ELEMENTS the routine
+	// promises to validate (own panic message), with a generator of illegal
+	// values; the faulty element is placed first, in the middle and last.
+	elemFaults map[string]func(a *lapackgen.Args) []int
 	// fixed are directed base tuples used before the random ones, so that
 	// corners in which a defect of the current tree lives are visited by
 	// every run (the set of signatures must not depend on the seed).
@@ -60,7 +64,7 @@ func allLapackRoutines() []*lroutine {
 }
 
 // dims that never make a problem empty when they are zero.
-var widthDims = map[string]bool{"kd": true, "kl": true, "ku": true, "offset": true, "k1": true, "k2": true, "ilo": true, "ihi": true}
+var widthDims = map[string]bool{"ai": true, "bi": true, "kd": true, "kl": true, "ku": true, "offset": true, "k1": true, "k2": true, "ilo": true, "ihi": true}
 
 type fault struct {
 	arg   string
@@ -362,6 +366,22 @@ func lapackBase(c *vrt.Ctx, st *lapackStats, impl gonum.Implementation, l *lrout
 			fmt.Sprintf("%s changed storage it must not touch: %v", desc, tr), map[string]any{"call": desc, "params": p.String()})
 	}
 	nFaultBase := faultsOf(a)
+	for name, gen := range l.elemFaults {
+		name := name
+		n := len(a.Arg(name).IS)
+		if n == 0 {
+			continue
+		}
+		vals := gen(a)
+		for pi, pos := range []int{0, n / 2, n - 1} {
+			if pi > 0 && pos == []int{0, n / 2, n - 1}[pi-1] {
+				continue
+			}
+			pos, v := pos, vals[(pi+bi)%len(vals)]
+			nFaultBase = append(nFaultBase, &fault{arg: name, kind: "illegal-element", needsNonEmpty: true,
+				apply: func(a *lapackgen.Args) { a.Arg(name).IS[pos] = v }})
+		}
+	}
 	if pn == nil && nonEmpty {
 		sampLapackValid.offer(c, 1, func() any {
 			return map[string]any{"sub_check": "lapack valid side", "call": desc, "slices": "exactly minimal, lwork = documented minimum",
@@ -480,6 +500,25 @@ func lapackgenHooks(l *lroutine) {
 			} else {
 				docUnrecognised.Store("Dgels.lwork", true)
 			}
+		}
+	case "Dgeqp3":
+		// Base tuples with a mix of free (-1) and fixed (>= 0) columns, so
+		// that the routine has moved columns around by the time it reaches
+		// a later element; illegal elements are < -1 or >= n ("bad element
+		// of jpvt").
+		l.fill = func(a *lapackgen.Args, r *vrt.Rand) {
+			jp := a.Ints("jpvt")
+			if r.Intn(4) == 0 {
+				return // all columns free
+			}
+			for j := range jp {
+				if r.Bool() {
+					jp[j] = r.Intn(len(jp))
+				}
+			}
+		}
+		l.elemFaults = map[string]func(a *lapackgen.Args) []int{
+			"jpvt": func(a *lapackgen.Args) []int { return []int{-2, a.Int("n"), -7, a.Int("n") + 3} },
 		}
 	case "Dlarfx":
 		// "work is not referenced if H has order < 11."
